@@ -37,10 +37,15 @@ type Pair struct {
 
 // NewPair creates two honest parties (pool keys key0, key1).
 func NewPair(ser wire.EnvelopeSerializer, key0, key1 int, watch bool) (*Pair, error) {
+	return NewPairOpt(ser, key0, key1, [2]bool{watch, watch})
+}
+
+// NewPairOpt is NewPair with a per-party watch flag.
+func NewPairOpt(ser wire.EnvelopeSerializer, key0, key1 int, watch [2]bool) (*Pair, error) {
 	env := NewEnv(ser)
 	pr := &Pair{Env: env}
 	for i, k := range []int{key0, key1} {
-		p, err := env.NewParty([]string{"A", "B"}[i], k, watch)
+		p, err := env.NewParty([]string{"A", "B"}[i], k, watch[i])
 		if err != nil {
 			return nil, err
 		}
@@ -171,8 +176,13 @@ func Transfer(asset int, from int, amount *big.Int, final bool) func(*channel.St
 // Update lets party `by` propose an update on its handle ch; the peer answers
 // according to accept.
 func (pr *Pair) Update(by int, ch *client.Channel, f func(*channel.State), accept bool) error {
+	return pr.UpdateLimit(by, ch, f, accept, HangLimit)
+}
+
+// UpdateLimit is Update with an explicit context timeout.
+func (pr *Pair) UpdateLimit(by int, ch *client.Channel, f func(*channel.State), accept bool, limit time.Duration) error {
 	pr.accept[by^1].Store(accept)
-	ctx, cancel := context.WithTimeout(context.Background(), HangLimit)
+	ctx, cancel := context.WithTimeout(context.Background(), limit)
 	defer cancel()
 	return ch.Update(ctx, f)
 }
